@@ -1,6 +1,7 @@
 //! vh-graph: graph-level engines (planner, executor, plan cache, buffer pool, ...).
 mod plan;
 mod pool;
+mod requests;
 mod synth;
 
 fn main() {
@@ -9,6 +10,7 @@ fn main() {
         "plan" => plan::main_plan(),
         "pool" => pool::main_pool(),
         "pool-stress" => pool::main_pool_stress(),
+        "requests" => requests::main_requests(),
         _ => {
             eprintln!("usage: vh-graph <plan|...> [options]");
             std::process::exit(2);
